@@ -185,3 +185,13 @@ def run(ctx):
             check_prog(ctx, r, p, n)
     fam.each_bin(per_bin)
     ctx.cov["programs"] = len(fam.progs)
+    # handlers whose arguments are user types named like framework items (Empty, Response, Addr, ...)
+    sh = ctx.family("shadow")
+
+    def per_bin_sh(b, progs, r):
+        for p in progs:
+            q = dict(p)
+            q["parts"] = [dict(pt, handlers=[h for h in pt["handlers"] if h["kind"] != "reply"]) for pt in p["parts"]]
+            check_prog(ctx, r, q, max(2, n // 3))
+    sh.each_bin(per_bin_sh)
+    ctx.cov["shadow_programs"] = len(sh.progs)
